@@ -789,9 +789,9 @@ func GenC18Upload(seed uint64, tier string) *Plan {
 		p.CancelAtNS = rt.Pick(r, []int64{1e6, 1e9, 30e9})
 		p.Deadline = true
 	}
-	share := 0.06
+	share := 0.12
 	if tier == "thorough" {
-		share = 0.12
+		share = 0.2
 	}
 	if s := realos.Getenv("VSIM_MODE_N_SHARE"); s != "" {
 		fmt.Sscanf(s, "%g", &share)
@@ -807,6 +807,28 @@ func GenC18Upload(seed uint64, tier string) *Plan {
 			p.Size = 262144
 			p.Writes = []int{100000, 100000, 62144}
 			p.PausesNS = []int64{0, 0, 0, 0}
+		}
+		if p.Server == "script" && r.Chance(0.25) {
+			// the server answers 2xx with a body at once, reads little or nothing of
+			// an upload that does not fit into the connection's buffers and keeps
+			// the connection: net/http goes on copying the request body until the
+			// answer's body has been read or closed, so whoever holds that body
+			// decides whether Write and Close ever return
+			p.Action = "answer"
+			p.Status = rt.Pick(r, []int{200, 200, 201, 207})
+			p.RespBody = "stall"
+			p.ReadBytes = rt.Pick(r, []int{0, 0, 1, 512})
+			p.ReadLatencyNS = 0
+			p.AnswerDelayNS = rt.Pick(r, []int64{0, 1, 1e6})
+			p.NetCapacity = rt.Pick(r, []int{0, 4096, 65536})
+			p.Size = rt.Pick(r, []int{70000, 200000, 262144})
+			p.Writes = []int{p.Size / 3, p.Size / 3, p.Size - 2*(p.Size/3)}
+			p.PausesNS = []int64{0, 0, 0, 0}
+			p.ResetUpAt = 0
+			if r.Chance(0.7) {
+				p.CancelAtNS = -1
+				p.Deadline = false
+			}
 		}
 	}
 	if p.Action == "stall" && p.CancelAtNS < 0 {
